@@ -317,7 +317,7 @@ theorem getitem_spec (c : String) (kw : Fields) (a : Axis) (it : Item) (vs : Lis
     exact mem_keys_of_lookup _ _ _ hw
   have hcs := construct_self a.cls (setField a.fields "values" (V.tup vs)) sig hb.hsig
     (by rw [setField_keys]; exact hb.keys) (fun _ => ⟨vs, lookup_setField _ _ _ hmem⟩)
-  refine ⟨{ cls := a.cls, fields := setField a.fields "values" (V.tup vs) }, by simp only [getitem, hsel]; exact hcs, rfl, ?_, ?_⟩
+  refine ⟨{ cls := a.cls, fields := setField a.fields "values" (V.tup vs) }, by simp only [getitem, ho, if_true, hsel]; exact hcs, rfl, ?_, ?_⟩
   · simp only [values, lookup_setField _ _ _ hmem]
   · intro k hk; exact lookup_setField_ne _ _ _ _ hk
 
@@ -442,18 +442,56 @@ theorem concat_rejects (a b : Axis) (ho : isOrdinal a.cls = true)
 
 /-! #### coordinates -/
 
-/-- **Linear axis coordinates are `offset + i × sampling`**, `i = 0 … n−1`. -/
-theorem linear_coordinates (a : Axis) (n : Nat) (hl : isLinear a.cls = true) (ho : isOrdinal a.cls = false) :
-    coordinates a (n : Int)
-      = .ok ((List.range n).map fun (i : Nat) => V.num (numField a "offset" + (i : Rat) * numField a "sampling")) := by
-  simp only [coordinates, ho, Bool.false_eq_true, if_false, hl, if_true]
+/-- **Linear axis coordinates are `offset + i × sampling`**, `i = 0 … n−1` (numeric `offset` `o` and `sampling` `d`). -/
+theorem linear_coordinates (a : Axis) (n : Nat) (o d : Rat) (hl : isLinear a.cls = true) (ho : isOrdinal a.cls = false)
+    (hof : numField? a "offset" = some o) (hsa : numField? a "sampling" = some d) :
+    coordinates a (n : Int) = .ok ((List.range n).map fun (i : Nat) => V.num (o + (i : Rat) * d)) := by
+  simp only [coordinates, ho, Bool.false_eq_true, if_false, hl, if_true, hof, hsa]
   unfold AbtemVerif.Scan.axisCoordinates AbtemVerif.Gen.Scan.coordStart AbtemVerif.Gen.Scan.coordStop
     AbtemVerif.Gen.Scan.coordNum AbtemVerif.Gen.Scan.coordEndpoint
   rw [linspaceI_nonneg]
-  have : numField a "offset" + numField a "sampling" * ((n : Int) : Rat)
-      = numField a "offset" + (n : Rat) * numField a "sampling" := by push_cast; ring
+  have : o + d * ((n : Int) : Rat) = o + (n : Rat) * d := by push_cast; ring
   rw [this, linspace_open_of_step]
   simp [Except.map, List.map_map, Function.comp]
+
+/-- a linear axis whose offset or sampling is not a number has no coordinates (TypeError) -/
+theorem linear_coordinates_non_numeric (a : Axis) (n : Int) (hl : isLinear a.cls = true) (ho : isOrdinal a.cls = false)
+    (h : numField? a "offset" = none ∨ numField? a "sampling" = none) : coordinates a n = .error "type_error" := by
+  rcases h with h | h
+  · simp [coordinates, ho, hl, h]
+  · rcases ho' : numField? a "offset" with _ | o <;> simp [coordinates, ho, hl, h, ho']
+
+/-- **Forward slice of a linear axis** (`LinearAxis.__getitem__`, fix 4dde25c3): the result is the same class with
+`offset + start·sampling` and `sampling·step`, i.e. its coordinate `k` is coordinate `start + k·step` of the original;
+a negative start, a step below 1 or a non-slice item raise TypeError. -/
+theorem linear_getitem_slice (a : Axis) (st sp : Nat) (stop : Option Int) (o d : Rat) (hl : isSubclass a.cls "LinearAxis" = true)
+    (ho : isOrdinal a.cls = false) (hsp : 1 ≤ sp) (hof : numField? a "offset" = some o) (hsa : numField? a "sampling" = some d) :
+    getitem a (.slice (some (st : Int)) stop (some (sp : Int)))
+      = construct a.cls (setField (setField a.fields "offset" (.num (o + (st : Rat) * d))) "sampling" (.num (d * (sp : Rat)))) ∧
+    ∀ k : Nat, (o + (st : Rat) * d) + (k : Rat) * (d * (sp : Rat)) = o + ((st + k * sp : Nat) : Rat) * d := by
+  constructor
+  · have h1 : ¬ (((st : Int) < 0) ∨ ((sp : Int) < 1)) := by omega
+    simp only [getitem, ho, Bool.false_eq_true, if_false, hl, if_true, Option.getD_some, h1, hof, hsa, Int.cast_natCast]
+  · intro k; push_cast; ring
+
+theorem linear_getitem_rejects (a : Axis) (it : Item) (hl : isSubclass a.cls "LinearAxis" = true) (ho : isOrdinal a.cls = false)
+    (h : (∀ x y z, it ≠ .slice x y z) ∨ ∃ x y z, it = .slice x y z ∧ (x.getD 0 < 0 ∨ z.getD 1 < 1)) :
+    getitem a it = .error "type_error" := by
+  rcases h with h | ⟨x, y, z, rfl, h⟩
+  · cases it with
+    | slice x y z => exact absurd rfl (h x y z)
+    | idx i => simp [getitem, ho, hl]
+    | ints l => simp [getitem, ho, hl]
+    | mask l => simp [getitem, ho, hl]
+  · simp [getitem, ho, hl, h]
+
+/-- **Pieces of one linear axis join back** (`LinearAxis.concatenate`, fix 5d453b12): a linear axis and an axis of a
+subclass whose fields agree with it once the offset is aligned concatenate to the first one; otherwise RuntimeError. -/
+theorem linear_concat (a b : Axis) (hl : isLinear a.cls = true) (ho : isOrdinal a.cls = false) :
+    concat a b = if ((a.fields.lookup "_concatenate") == some (V.bool true) && isLinear b.cls && isSubclass b.cls a.cls
+        && fieldsEq a.fields (setField b.fields "offset" ((a.fields.lookup "offset").getD V.none)) "") = true
+      then .ok a else .error "runtime_error" := by
+  simp [concat, ho, hl]
 
 /-- the coordinates of an ordinal axis are its values -/
 theorem ordinal_coordinates (a : Axis) (n : Int) (ho : isOrdinal a.cls = true) : coordinates a n = .ok (values a) := by
